@@ -158,6 +158,11 @@ func foldEnv(c *Ctx, prop, caseID, profName string, e *sim.Env, nontrivialKeys [
 	if e.Dead {
 		c.Res.count("histories_ended_by_node_death", 1)
 	}
+	for _, n := range e.DecodeNotes {
+		if len(c.Res.Inconcl) < 40 {
+			c.Res.Inconcl = append(c.Res.Inconcl, fmt.Sprintf("case %s: the state snapshot holds a record the harness cannot interpret (%s): monitors judged an incomplete view", caseID, n))
+		}
+	}
 	nt := len(nontrivialKeys) == 0
 	for _, k := range nontrivialKeys {
 		if e.Stats[k] > 0 {
